@@ -3,7 +3,7 @@
 p=$1; shift
 export VERIF_SCRATCH=1
 git -C /repo apply "$p" || exit 2
-trap 'git -C /repo checkout -- . ; git -C /repo status --short; /verif/.work/factx-bin /repo /verif/lean/Dirk/Gen/Facts.lean' EXIT
+trap 'git -C /repo apply -R "$p" 2>/dev/null || git -C /repo checkout -- . ; git -C /repo checkout -- . ; for nf in $(grep -A1 "^new file mode" "$p" >/dev/null 2>&1; grep "^+++ b/" "$p" | sed "s|^+++ b/||"); do git -C /repo ls-files --error-unmatch "$nf" >/dev/null 2>&1 || rm -f "/repo/$nf"; done; git -C /repo status --short; /verif/.work/factx-bin /repo /verif/lean/Dirk/Gen/Facts.lean' EXIT
 for c in "$@"; do
   ( cd /verif && timeout 3000 ./check $c --tier ${TIER:-quick} 2>&1 | grep -E "VIOLATION|KNOWN|^C[0-9]+|held|broken|wall" | head -20; echo "exit=${PIPESTATUS[0]}" )
 done
